@@ -1,1 +1,33 @@
-// harnesses for unit cycle (mounted under cfg(kani) by the hook in /repo)
+//! K5 — `round_robin::cycle::State::next` (tarpc/src/client/stub/load_balance.rs).
+//! Mounted inside `mod cycle` under cfg(kani) (private fields).
+use super::*;
+use std::sync::atomic::{AtomicUsize, Ordering};
+
+fn state_of(n: usize, start: usize) -> State<u8> {
+    let elements: Vec<u8> = match n {
+        1 => vec![0],
+        2 => vec![0, 1],
+        3 => vec![0, 1, 2],
+        _ => vec![0, 1, 2, 3],
+    };
+    State { elements, next: AtomicUsize::new(start) }
+}
+
+/// C20: for a non-empty backend list, `next()` returns element `c % len` where c is the value
+/// the atomic counter held, and advances the counter by exactly one (wrapping) -- so concurrent
+/// calls, each getting a distinct consecutive c from fetch_add, spread evenly.
+/// Full domain in the counter value (incl. usize::MAX wrap); BOUNDED in the backend count (1..=4).
+#[kani::proof]
+#[kani::unwind(6)]
+fn k5_cycle_next_is_counter_mod_len() {
+    let n: usize = kani::any();
+    kani::assume(n >= 1 && n <= 4);
+    let c: usize = kani::any();
+    let s = state_of(n, c);
+    let got = *s.next();
+    kani::cover!(c == usize::MAX, "reachable: counter wraps");
+    assert!(got as usize == c % n, "C20: backend index == counter % len");
+    assert!(s.next.load(Ordering::Relaxed) == c.wrapping_add(1), "C20: counter advances by exactly one");
+    let got2 = *s.next();
+    assert!(got2 as usize == c.wrapping_add(1) % n, "C20: the next call gets the next counter value");
+}
